@@ -57,5 +57,713 @@ theorem decodeN_encodeComps (s : Nat) (vals : List Nat) (rest : List UInt8) (h :
     simp only [encodeComps] at this
     rw [this]
 
+/-! ### GLB container -/
+
+theorem pad4_lt (n : Nat) : pad4 n < 4 := by unfold pad4; omega
+theorem pad4_mod (n : Nat) : (n + pad4 n) % 4 = 0 := by unfold pad4; omega
+
+private theorem field_aux (pre x post : List UInt8) (o : Nat) (ho : pre.length = o) (hx : x.length = 4) :
+    leVal (((pre ++ (x ++ post)).drop o).take 4) = leVal x := by
+  rw [List.drop_left' ho, List.take_left' hx]
+
+private theorem fields_aux (A B C D E R : List UInt8) (hA : A.length = 4) (hB : B.length = 4) (hC : C.length = 4)
+    (hD : D.length = 4) (hE : E.length = 4) :
+    let f := A ++ (B ++ (C ++ (D ++ (E ++ R))))
+    leVal ((f.drop 0).take 4) = leVal A ∧ leVal ((f.drop 4).take 4) = leVal B ∧ leVal ((f.drop 8).take 4) = leVal C
+    ∧ leVal ((f.drop 12).take 4) = leVal D ∧ leVal ((f.drop 16).take 4) = leVal E ∧ f.drop 20 = R := by
+  intro f
+  refine ⟨?_, ?_, ?_, ?_, ?_, ?_⟩
+  · exact field_aux [] A _ 0 rfl hA
+  · exact field_aux A B _ 4 hA hB
+  · have := field_aux (A ++ B) C (D ++ (E ++ R)) 8 (by simp [hA, hB]) hC
+    simpa [f, List.append_assoc] using this
+  · have := field_aux (A ++ B ++ C) D (E ++ R) 12 (by simp [hA, hB, hC]) hD
+    simpa [f, List.append_assoc] using this
+  · have := field_aux (A ++ B ++ C ++ D) E R 16 (by simp [hA, hB, hC, hD]) hE
+    simpa [f, List.append_assoc] using this
+  · have : f = (A ++ B ++ C ++ D ++ E) ++ R := by simp [f, List.append_assoc]
+    rw [this, List.drop_left' (by simp [hA, hB, hC, hD, hE])]
+
+def glbTotal (json bin : List UInt8) : Nat :=
+  (json.length + pad4 json.length) + (bin.length + pad4 bin.length) + 12 + 8 + (if bin.length + pad4 bin.length > 0 then 8 else 0)
+
+def glbBinPart (bin : List UInt8) : List UInt8 :=
+  if bin.length + pad4 bin.length = 0 then [] else
+    leBytes 4 (bin.length + pad4 bin.length) ++ (leBytes 4 0x004E4942 ++ ((bin ++ List.replicate (pad4 bin.length) 0x00) ++ []))
+
+/-- the five fixed header words and the JSON chunk, then the BIN part -/
+private theorem glbFrame_shape (json bin : List UInt8) :
+    glbFrame json bin =
+      leBytes 4 0x46546C67 ++ (leBytes 4 2 ++ (leBytes 4 (glbTotal json bin)
+        ++ (leBytes 4 (json.length + pad4 json.length) ++ (leBytes 4 0x4E4F534A ++ ((json ++ List.replicate (pad4 json.length) 0x20) ++ glbBinPart bin))))) := by
+  simp only [glbFrame, glbTotal, glbBinPart, List.append_assoc]
+  split <;> simp
+
+theorem length_glbBinPart (bin : List UInt8) :
+    (glbBinPart bin).length = if bin.length > 0 then 8 + (bin.length + pad4 bin.length) else 0 := by
+  have := pad4_lt bin.length
+  unfold glbBinPart
+  by_cases hb : bin.length = 0
+  · simp [hb, pad4]
+  · have : ¬ (bin.length + pad4 bin.length = 0) := by omega
+    rw [if_neg this, if_pos (Nat.pos_of_ne_zero hb)]
+    simp [length_leBytes]; omega
+
+/-- total length of a GLB file -/
+theorem glb_frame_length (json bin : List UInt8) :
+    (glbFrame json bin).length =
+      12 + 8 + (json.length + pad4 json.length) + (if bin.length > 0 then 8 + (bin.length + pad4 bin.length) else 0) := by
+  rw [glbFrame_shape]
+  simp only [List.length_append, length_leBytes, length_glbBinPart, List.length_replicate]
+  omega
+
+private theorem glbTotal_eq (json bin : List UInt8) : glbTotal json bin = (glbFrame json bin).length := by
+  rw [glb_frame_length]; unfold glbTotal
+  have := pad4_lt bin.length
+  by_cases hb : bin.length = 0
+  · simp [hb, pad4]; omega
+  · have h1 : bin.length + pad4 bin.length > 0 := by omega
+    simp [h1, Nat.pos_of_ne_zero hb]; omega
+
+/-- a 32-bit little-endian word read back from a file at byte offset `o` -/
+def readWord (f : List UInt8) (o : Nat) : Nat := leVal ((f.drop o).take 4)
+
+/-- the header a reader finds in `glbFrame json bin` (32-bit little-endian words read back from the bytes) is consistent
+    with the payloads: magic, version 2, declared total = actual file length, JSON chunk length = padded JSON length (a
+    multiple of 4) with type `JSON`, followed by the JSON text; the file ends there iff the buffer is empty; what follows is
+    `glbBinPart bin`: nothing, or the chunk header (padded buffer length — a multiple of 4 —, type `BIN\0`), the buffer and
+    its zero padding (by definition of `glbBinPart`; total length in `glb_frame_length`).
+    (`frameOK ∘ readFrame` of Model/GltfSpec states the same on a parsed header; it is what `c06.holds.frame` evaluates.) -/
+theorem glb_frame (json bin : List UInt8) (hsz : (glbFrame json bin).length < 2 ^ 32) :
+    readWord (glbFrame json bin) 0 = 0x46546C67 ∧ readWord (glbFrame json bin) 4 = 2
+    ∧ readWord (glbFrame json bin) 8 = (glbFrame json bin).length
+    ∧ readWord (glbFrame json bin) 12 = json.length + pad4 json.length ∧ (json.length + pad4 json.length) % 4 = 0
+    ∧ readWord (glbFrame json bin) 16 = 0x4E4F534A
+    ∧ ((glbFrame json bin).drop 20).take json.length = json
+    ∧ (bin.length = 0 → (glbFrame json bin).length = 20 + (json.length + pad4 json.length))
+    ∧ (glbFrame json bin).drop (20 + (json.length + pad4 json.length)) = glbBinPart bin
+    ∧ (glbBinPart bin).length = (if bin.length > 0 then 8 + (bin.length + pad4 bin.length) else 0)
+    ∧ (bin.length + pad4 bin.length) % 4 = 0 := by
+  unfold readWord
+  have hlen := glb_frame_length json bin
+  have h := glbFrame_shape json bin
+  have hT := glbTotal_eq json bin
+  have hp := pad4_lt bin.length
+  have hpj := pad4_lt json.length
+  have hm := pad4_mod json.length
+  have hmb := pad4_mod bin.length
+  obtain ⟨e0, e4, e8, e12, e16, e20⟩ := fields_aux (leBytes 4 0x46546C67) (leBytes 4 2) (leBytes 4 (glbTotal json bin))
+    (leBytes 4 (json.length + pad4 json.length)) (leBytes 4 0x4E4F534A)
+    ((json ++ List.replicate (pad4 json.length) 0x20) ++ glbBinPart bin)
+    (length_leBytes _ _) (length_leBytes _ _) (length_leBytes _ _) (length_leBytes _ _) (length_leBytes _ _)
+  rw [← h] at e0 e4 e8 e12 e16 e20
+  rw [leVal_leBytes 4 _ (by decide)] at e0 e4 e16
+  rw [leVal_leBytes 4 _ (by rw [hT]; simpa using hsz), hT] at e8
+  rw [leVal_leBytes 4 _ (by omega)] at e12
+  have hdrop : (glbFrame json bin).drop (20 + (json.length + pad4 json.length)) = glbBinPart bin := by
+    rw [← List.drop_drop, e20, List.drop_left' (by simp)]
+  have hu : ∀ o, leVal (((glbFrame json bin).drop (20 + (json.length + pad4 json.length) + o)).take 4)
+      = leVal (((glbBinPart bin).drop o).take 4) := by
+    intro o; rw [← List.drop_drop, hdrop]
+  refine ⟨e0, e4, e8, e12, hm, e16, ?_, ?_, hdrop, length_glbBinPart bin, hmb⟩
+  · rw [e20, List.append_assoc, List.take_left' rfl]
+  · intro hb
+    rw [hlen, if_neg (by omega)]; omega
+
+/-! ### min / max folds -/
+
+private theorem foldl_bmin_some (c : Comp) (col : List Nat) (a : Nat) :
+    ∃ m, col.foldl (bmin c) (some a) = some m ∧ m ∈ a :: col ∧ ∀ v ∈ a :: col, c.key m ≤ c.key v := by
+  induction col generalizing a with
+  | nil => exact ⟨a, rfl, by simp, by simp⟩
+  | cons v col ih =>
+    simp only [List.foldl_cons, bmin]
+    by_cases h : c.key v < c.key a
+    · rw [if_pos h]
+      obtain ⟨m, h1, h2, h3⟩ := ih v
+      refine ⟨m, h1, by simp only [List.mem_cons] at h2 ⊢; grind, ?_⟩
+      intro x hx
+      simp only [List.mem_cons] at hx
+      rcases hx with rfl | rfl | hx
+      · have := h3 v (by simp); omega
+      · exact h3 _ (by simp)
+      · exact h3 x (by simp [hx])
+    · rw [if_neg h]
+      obtain ⟨m, h1, h2, h3⟩ := ih a
+      refine ⟨m, h1, by simp only [List.mem_cons] at h2 ⊢; grind, ?_⟩
+      intro x hx
+      simp only [List.mem_cons] at hx
+      rcases hx with rfl | rfl | hx
+      · exact h3 _ (by simp)
+      · have := h3 a (by simp); omega
+      · exact h3 x (by simp [hx])
+
+private theorem foldl_bmax_some (c : Comp) (col : List Nat) (a : Nat) :
+    ∃ m, col.foldl (bmax c) (some a) = some m ∧ m ∈ a :: col ∧ ∀ v ∈ a :: col, c.key v ≤ c.key m := by
+  induction col generalizing a with
+  | nil => exact ⟨a, rfl, by simp, by simp⟩
+  | cons v col ih =>
+    simp only [List.foldl_cons, bmax]
+    by_cases h : c.key a < c.key v
+    · rw [if_pos h]
+      obtain ⟨m, h1, h2, h3⟩ := ih v
+      refine ⟨m, h1, by simp only [List.mem_cons] at h2 ⊢; grind, ?_⟩
+      intro x hx
+      simp only [List.mem_cons] at hx
+      rcases hx with rfl | rfl | hx
+      · have := h3 v (by simp); omega
+      · exact h3 _ (by simp)
+      · exact h3 x (by simp [hx])
+    · rw [if_neg h]
+      obtain ⟨m, h1, h2, h3⟩ := ih a
+      refine ⟨m, h1, by simp only [List.mem_cons] at h2 ⊢; grind, ?_⟩
+      intro x hx
+      simp only [List.mem_cons] at hx
+      rcases hx with rfl | rfl | hx
+      · exact h3 _ (by simp)
+      · have := h3 a (by simp); omega
+      · exact h3 x (by simp [hx])
+
+/-- no infinity among binary32 values (with one, `encoding/json` refuses the document: see `marshalOK`) -/
+def NoInf (c : Comp) (col : List Nat) : Prop := ∀ v ∈ col, ¬ (c = .f32 ∧ (v = posInf32 ∨ v = negInf32))
+
+theorem isMinOf_fold (c : Comp) (col : List Nat) (h : NoInf c col) :
+    isMinOf c (col.foldl (bmin c) none) col = true := by
+  cases col with
+  | nil => simp [isMinOf]
+  | cons v col =>
+    have hv := h v (by simp)
+    have : bmin c none v = some v := by
+      simp only [bmin]
+      split
+      · rename_i hc; simp at hc; exact absurd ⟨hc.1, Or.inl hc.2⟩ hv
+      · rfl
+    rw [List.foldl_cons, this]
+    obtain ⟨m, h1, h2, h3⟩ := foldl_bmin_some c col v
+    rw [h1]
+    simp only [isMinOf, Bool.and_eq_true, List.contains_iff_mem, List.all_eq_true, decide_eq_true_eq]
+    exact ⟨h2, h3⟩
+
+theorem isMaxOf_fold (c : Comp) (col : List Nat) (h : NoInf c col) :
+    isMaxOf c (col.foldl (bmax c) none) col = true := by
+  cases col with
+  | nil => simp [isMaxOf]
+  | cons v col =>
+    have hv := h v (by simp)
+    have : bmax c none v = some v := by
+      simp only [bmax]
+      split
+      · rename_i hc; simp at hc; exact absurd ⟨hc.1, Or.inr hc.2⟩ hv
+      · rfl
+    rw [List.foldl_cons, this]
+    obtain ⟨m, h1, h2, h3⟩ := foldl_bmax_some c col v
+    rw [h1]
+    simp only [isMaxOf, Bool.and_eq_true, List.contains_iff_mem, List.all_eq_true, decide_eq_true_eq]
+    exact ⟨h2, h3⟩
+
+
+/-! ### buffer views tile the buffer -/
+
+/-- the views are laid out back to back from `s` to `e` -/
+def Tiles : Nat → List View → Nat → Prop
+  | s, [], e => s = e
+  | s, v :: vs, e => v.off = s ∧ Tiles (s + v.len) vs e
+
+theorem tiles_append (s e l t : Nat) (vs : List View) (h : Tiles s vs e) :
+    Tiles s (vs ++ [{ off := e, len := l, target := t }]) (e + l) := by
+  induction vs generalizing s with
+  | nil => simp [Tiles] at h ⊢; omega
+  | cons v vs ih => exact ⟨h.1, ih _ h.2⟩
+
+theorem tiles_le {s e : Nat} {vs : List View} (h : Tiles s vs e) : s ≤ e := by
+  induction vs generalizing s with
+  | nil => simp [Tiles] at h; omega
+  | cons v vs ih => have := ih h.2; omega
+
+theorem tiles_inside {s e : Nat} {vs : List View} (h : Tiles s vs e) : ∀ v ∈ vs, s ≤ v.off ∧ v.off + v.len ≤ e := by
+  induction vs generalizing s with
+  | nil => simp
+  | cons v vs ih =>
+    intro x hx
+    simp only [List.mem_cons] at hx
+    have hle := tiles_le h.2
+    rcases hx with rfl | hx
+    · have := h.1; omega
+    · have := ih h.2 x hx; omega
+
+theorem tiles_disjoint {s e : Nat} {vs : List View} (h : Tiles s vs e) : pairwiseB viewDisj vs = true := by
+  induction vs generalizing s with
+  | nil => rfl
+  | cons v vs ih =>
+    simp only [pairwiseB, Bool.and_eq_true, List.all_eq_true]
+    refine ⟨?_, ih h.2⟩
+    intro x hx
+    have := tiles_inside h.2 x hx
+    have := h.1
+    simp [viewDisj]; omega
+
+/-! ### reading earlier accessors is not disturbed by later writes -/
+
+theorem decodeN_append (s c : Nat) (xs ys : List UInt8) (h : c * s ≤ xs.length) :
+    decodeN s c (xs ++ ys) = decodeN s c xs := by
+  induction c generalizing xs with
+  | zero => rfl
+  | succ c ih =>
+    have hs : s ≤ xs.length := by rw [Nat.succ_mul] at h; omega
+    simp only [decodeN]
+    rw [List.take_append_of_le_length hs, List.drop_append_of_le_length hs]
+    rw [ih (xs.drop s) (by rw [Nat.succ_mul] at h; simp; omega)]
+
+theorem decodeAcc_append (buf b : List UInt8) (views vs : List View) (a : Accessor) (d : List Nat)
+    (h : decodeAcc buf views a = some d) : decodeAcc (buf ++ b) (views ++ vs) a = some d := by
+  unfold decodeAcc at h ⊢
+  split at h
+  · simp at h
+  · rename_i v hv
+    have hlt : a.view < views.length := by
+      rcases Nat.lt_or_ge a.view views.length with h1 | h1
+      · exact h1
+      · rw [List.getElem?_eq_none h1] at hv; simp at hv
+    rw [List.getElem?_append_left hlt, hv]
+    split at h
+    · rename_i hle
+      simp only [List.length_append]
+      rw [if_pos (by omega)]
+      injection h with h
+      rw [← h, List.drop_append_of_le_length (by omega)]
+      congr 1
+      apply decodeN_append
+      simp only [List.length_drop]
+      unfold Accessor.byteLen at hle
+      omega
+    · simp at h
+
+theorem accOK_append (buf b : List UInt8) (views vs : List View) (a : Accessor)
+    (h : accOK buf views a = true) : accOK (buf ++ b) (views ++ vs) a = true := by
+  unfold accOK at h ⊢
+  split at h
+  · rename_i v d hv hd
+    have hlt : a.view < views.length := by
+      rcases Nat.lt_or_ge a.view views.length with h1 | h1
+      · exact h1
+      · rw [List.getElem?_eq_none h1] at hv; simp at hv
+    rw [List.getElem?_append_left hlt, hv, decodeAcc_append buf b views vs a d hd]
+    exact h
+  · simp at h
+
+/-! ### the accessor just written reads back exactly the data, and its bounds are the bounds of that data -/
+
+theorem flatten_length_of (dim : Nat) (vecs : List (List Nat)) (h : ∀ v ∈ vecs, v.length = dim) :
+    vecs.flatten.length = vecs.length * dim := by
+  induction vecs with
+  | nil => simp
+  | cons v vs ih =>
+    simp only [List.flatten_cons, List.length_append, List.length_cons]
+    rw [ih (fun x hx => h x (by simp [hx])), h v (by simp), Nat.succ_mul]; omega
+
+theorem chunkN_flatten (dim : Nat) (vecs : List (List Nat)) (h : ∀ v ∈ vecs, v.length = dim) :
+    chunkN dim vecs.length vecs.flatten = vecs := by
+  induction vecs with
+  | nil => rfl
+  | cons v vs ih =>
+    simp only [List.length_cons, chunkN, List.flatten_cons]
+    rw [List.take_left' (h v (by simp)), List.drop_left' (h v (by simp)), ih (fun x hx => h x (by simp [hx]))]
+
+private theorem zip_all_aux (f : Nat → Bound) (p : Bound × Nat → Bool) (l : List Nat) :
+    ((l.map f).zip l).all p = l.all (fun j => p (f j, j)) := by
+  induction l with
+  | nil => rfl
+  | cons a l ih => simp [ih]
+
+private theorem mem_column {us : List (List Nat)} {j x : Nat} (h : x ∈ column us j) : ∃ v ∈ us, x ∈ v := by
+  simp only [column, List.mem_filterMap] at h
+  obtain ⟨v, hv, hx⟩ := h
+  exact ⟨v, hv, List.mem_of_getElem? hx⟩
+
+/-- admissible vector data: every vector has `dim` components, every component fits the component type, no binary32
+    infinity -/
+def VecsOK (comp : Comp) (dim : Nat) (vecs : List (List Nat)) : Prop :=
+  ∀ v ∈ vecs, v.length = dim ∧ ∀ x ∈ v, x < 256 ^ comp.size ∧ ¬ (comp = .f32 ∧ (x = posInf32 ∨ x = negInf32))
+
+def vecAccessor (view : Nat) (comp : Comp) (dim : Nat) (vecs : List (List Nat)) : Accessor :=
+  { view := view, comp := comp, dim := dim, count := vecs.length,
+    min := boundsOf (bmin comp) dim (vecs.filter (usable comp dim)),
+    max := boundsOf (bmax comp) dim (vecs.filter (usable comp dim)) }
+
+theorem decodeAcc_new (buf bytes : List UInt8) (views : List View) (a : Accessor) (t : Nat) (vals : List Nat)
+    (hview : a.view = views.length) (hcount : a.count * a.dim = vals.length)
+    (hbytes : bytes = encodeComps a.comp.size vals) (hfit : ∀ v ∈ vals, v < 256 ^ a.comp.size) :
+    decodeAcc (buf ++ bytes) (views ++ [{ off := buf.length, len := a.byteLen, target := t }]) a = some vals := by
+  unfold decodeAcc
+  rw [hview]
+  simp only [List.getElem?_concat_length]
+  have hl : bytes.length = a.byteLen := by
+    rw [hbytes, length_encodeComps, Accessor.byteLen, hcount]
+  rw [if_pos (by simp [hl])]
+  rw [List.drop_left' rfl, hcount, hbytes]
+  have := decodeN_encodeComps a.comp.size vals [] hfit
+  simpa using this
+
+theorem boundsOK_vec (view : Nat) (comp : Comp) (dim : Nat) (vecs : List (List Nat)) (h : VecsOK comp dim vecs) :
+    boundsOK (vecAccessor view comp dim vecs) vecs.flatten = true := by
+  unfold boundsOK
+  split
+  · rfl
+  · simp only [vecAccessor, chunkN_flatten dim vecs (fun v hv => (h v hv).1), boundsOf, List.length_map, List.length_range,
+      beq_self_eq_true, Bool.true_and, zip_all_aux, Bool.and_eq_true, List.all_eq_true]
+    constructor
+    · intro j _
+      apply isMinOf_fold
+      intro x hx
+      obtain ⟨v, hv, hxv⟩ := mem_column hx
+      exact ((h v (List.mem_filter.mp hv).1).2 x hxv).2
+    · intro j _
+      apply isMaxOf_fold
+      intro x hx
+      obtain ⟨v, hv, hxv⟩ := mem_column hx
+      exact ((h v (List.mem_filter.mp hv).1).2 x hxv).2
+
+theorem accOK_new_vec (buf : List UInt8) (views : List View) (comp : Comp) (dim : Nat) (vecs : List (List Nat))
+    (hc : comp = .f32 ∨ comp = .u8) (h : VecsOK comp dim vecs) :
+    accOK (buf ++ vecBytes comp vecs)
+      (views ++ [{ off := buf.length, len := vecs.length * dim * comp.size, target := 34962 }])
+      (vecAccessor views.length comp dim vecs) = true := by
+  have hd := decodeAcc_new buf (vecBytes comp vecs) views (vecAccessor views.length comp dim vecs) 34962 vecs.flatten rfl
+    (by simp [vecAccessor, flatten_length_of dim vecs (fun v hv => (h v hv).1)])
+    (by simp [vecBytes, hc, vecAccessor])
+    (by intro x hx
+        obtain ⟨v, hv, hxv⟩ := List.mem_flatten.mp hx
+        exact ((h v hv).2 x hxv).1)
+  have hbl : (vecAccessor views.length comp dim vecs).byteLen = vecs.length * dim * comp.size := rfl
+  rw [hbl] at hd
+  unfold accOK
+  rw [hd]
+  have : (vecAccessor views.length comp dim vecs).view = views.length := rfl
+  rw [this]
+  simp only [List.getElem?_concat_length, hbl, beq_self_eq_true, Bool.true_and]
+  exact boundsOK_vec _ comp dim vecs h
+
+/-! ### any sequence of the exported low-level writes -/
+
+inductive Op where
+  | vec (comp : Comp) (dim : Nat) (vecs : List (List Nat))     -- WriteVector2/3/4
+  | idx (idx : List Nat) (attrSize : Nat)                      -- WriteIndices
+
+def step (w : W) : Op → W
+  | .vec c d v => writeVec w c d v
+  | .idx i n => writeIndices w i n
+
+def run (w : W) (ops : List Op) : W := ops.foldl step w
+
+/-- the guard under which the writer is used by `AddScene`: vectors are FLOAT or UNSIGNED_BYTE with admissible data,
+    indices are smaller than the attribute size they are declared against (well-formed mesh) -/
+def OpOK : Op → Prop
+  | .vec comp dim vecs => (comp = .f32 ∨ comp = .u8) ∧ VecsOK comp dim vecs
+  | .idx idx n => (∀ i ∈ idx, i < n) ∧ n ≤ 2 ^ 32
+
+structure Inv (w : W) : Prop where
+  bytes : w.bytesWritten = w.buf.length
+  tiles : Tiles 0 w.views w.buf.length
+  len : w.accessors.length = w.views.length
+  own : ∀ k (h : k < w.accessors.length), w.accessors[k].view = k
+  accs : ∀ a ∈ w.accessors, accOK w.buf w.views a = true
+
+theorem inv_empty : Inv {} := ⟨rfl, rfl, rfl, by simp, by simp⟩
+
+private theorem own_append (accs : List Accessor) (a : Accessor) (n : Nat) (hn : accs.length = n) (ha : a.view = n)
+    (h : ∀ k (h : k < accs.length), accs[k].view = k) :
+    ∀ k (hk : k < (accs ++ [a]).length), (accs ++ [a])[k].view = k := by
+  intro k hk
+  rw [List.getElem_append]
+  split
+  · exact h k _
+  · simp at hk ⊢; omega
+
+/-- no truncation: the index values fit the width `WriteIndices` chooses (uint16 iff attributeSize ≤ 65535) -/
+theorem index_fits (idx : List Nat) (n : Nat) (h : (∀ i ∈ idx, i < n) ∧ n ≤ 2 ^ 32) :
+    ∀ i ∈ idx, i < 256 ^ (indexComp n).size := by
+  intro i hi
+  have := h.1 i hi
+  unfold indexComp
+  split <;> simp [Comp.size] <;> omega
+
+theorem inv_step (w : W) (op : Op) (hw : Inv w) (hop : OpOK op) : Inv (step w op) := by
+  cases op with
+  | vec comp dim vecs =>
+    obtain ⟨hc, hv⟩ := hop
+    have hnew := accOK_new_vec w.buf w.views comp dim vecs hc hv
+    have hbl : (vecBytes comp vecs).length = vecs.length * dim * comp.size := by
+      simp [vecBytes, hc, length_encodeComps, flatten_length_of dim vecs (fun v h => (hv v h).1)]
+    refine ⟨?_, ?_, ?_, ?_, ?_⟩
+    · simp [step, writeVec, hw.bytes, hbl]
+    · simp only [step, writeVec, List.length_append, hbl, hw.bytes]
+      exact tiles_append 0 _ _ _ _ hw.tiles
+    · simp [step, writeVec, hw.len]
+    · exact own_append _ _ _ hw.len rfl hw.own
+    · intro a ha
+      simp only [step, writeVec, List.mem_append, List.mem_singleton] at ha
+      rcases ha with ha | rfl
+      · exact accOK_append _ _ _ _ a (hw.accs a ha)
+      · simp only [step, writeVec, hw.bytes]; exact hnew
+  | idx idx n =>
+    have hfit := index_fits idx n hop
+    let a : Accessor := { view := w.views.length, comp := indexComp n, dim := 1, count := idx.length, min := [], max := [] }
+    have hd := decodeAcc_new w.buf (encodeComps (indexComp n).size idx) w.views a 34963 idx rfl (by simp [a]) rfl hfit
+    have hbl : a.byteLen = idx.length * (indexComp n).size := by simp [a, Accessor.byteLen]
+    rw [hbl] at hd
+    refine ⟨?_, ?_, ?_, ?_, ?_⟩
+    · simp [step, writeIndices, hw.bytes, length_encodeComps]
+    · simp only [step, writeIndices, List.length_append, length_encodeComps, hw.bytes]
+      exact tiles_append 0 _ _ _ _ hw.tiles
+    · simp [step, writeIndices, hw.len]
+    · exact own_append _ _ _ hw.len rfl hw.own
+    · intro x hx
+      simp only [step, writeIndices, List.mem_append, List.mem_singleton] at hx
+      rcases hx with hx | rfl
+      · exact accOK_append _ _ _ _ x (hw.accs x hx)
+      · simp only [step, writeIndices, hw.bytes]
+        unfold accOK
+        rw [hd]
+        simp [boundsOK, Accessor.byteLen]
+
+theorem inv_run (w : W) (ops : List Op) (hw : Inv w) (hops : ∀ op ∈ ops, OpOK op) : Inv (run w ops) := by
+  induction ops generalizing w with
+  | nil => exact hw
+  | cons op ops ih =>
+    exact ih (step w op) (inv_step w op hw (hops op (by simp))) (fun o ho => hops o (by simp [ho]))
+
+/-! ### property theorems: any admissible sequence of low-level writes -/
+
+/-- the running offset equals the buffer length -/
+theorem gltf_bytesWritten_eq_len (ops : List Op) (h : ∀ op ∈ ops, OpOK op) :
+    (run {} ops).bytesWritten = (run {} ops).buf.length := (inv_run {} ops inv_empty h).bytes
+
+/-- buffer views are contiguous from 0 to the end of the buffer, hence pairwise disjoint and inside the buffer -/
+theorem gltf_views_tile (ops : List Op) (h : ∀ op ∈ ops, OpOK op) :
+    Tiles 0 (run {} ops).views (run {} ops).buf.length
+    ∧ pairwiseB viewDisj (run {} ops).views = true
+    ∧ ∀ v ∈ (run {} ops).views, viewInside (run {} ops).buf.length v = true := by
+  have hi := inv_run {} ops inv_empty h
+  refine ⟨hi.tiles, tiles_disjoint hi.tiles, ?_⟩
+  intro v hv
+  have := tiles_inside hi.tiles v hv
+  simp [viewInside]; omega
+
+/-- accessor `k` reads view `k`, and `count · elemSize` is exactly that view's byte length -/
+theorem gltf_accessor_fits (ops : List Op) (h : ∀ op ∈ ops, OpOK op) (k : Nat) (hk : k < (run {} ops).accessors.length) :
+    ∃ v, (run {} ops).views[k]? = some v ∧ (run {} ops).accessors[k].view = k
+      ∧ (run {} ops).accessors[k].count * (run {} ops).accessors[k].dim * (run {} ops).accessors[k].comp.size = v.len := by
+  have hi := inv_run {} ops inv_empty h
+  have hok := hi.accs _ (List.getElem_mem hk)
+  have hown := hi.own k hk
+  unfold accOK at hok
+  rw [hown] at hok
+  split at hok
+  · rename_i v d hv hd
+    refine ⟨v, hv, hown, ?_⟩
+    simp only [Bool.and_eq_true, beq_iff_eq] at hok
+    exact hok.1
+  · simp at hok
+
+/-- every accessor can be read (its data lie inside the buffer) and its declared min/max are the component-wise
+    bounds of the STORED values it reads (vectors containing a NaN excluded in the VEC2/VEC3 float case) -/
+theorem gltf_minmax (ops : List Op) (h : ∀ op ∈ ops, OpOK op) (a : Accessor) (ha : a ∈ (run {} ops).accessors) :
+    ∃ d, decodeAcc (run {} ops).buf (run {} ops).views a = some d ∧ boundsOK a d = true := by
+  have hok := (inv_run {} ops inv_empty h).accs a ha
+  unfold accOK at hok
+  split at hok
+  · rename_i v d hv hd
+    simp only [Bool.and_eq_true] at hok
+    exact ⟨d, hd, hok.2⟩
+  · simp at hok
+
+private theorem run_extends (w : W) (ops : List Op) :
+    ∃ b vs as, (run w ops).buf = w.buf ++ b ∧ (run w ops).views = w.views ++ vs ∧ (run w ops).accessors = w.accessors ++ as := by
+  induction ops generalizing w with
+  | nil => exact ⟨[], [], [], by simp [run]⟩
+  | cons op ops ih =>
+    obtain ⟨b, vs, as, h1, h2, h3⟩ := ih (step w op)
+    cases op with
+    | vec c d v => exact ⟨_, _, _, by rw [run, List.foldl_cons, ← run, h1]; simp [step, writeVec, List.append_assoc]; rfl,
+        by rw [run, List.foldl_cons, ← run, h2]; simp [step, writeVec, List.append_assoc]; rfl,
+        by rw [run, List.foldl_cons, ← run, h3]; simp [step, writeVec, List.append_assoc]; rfl⟩
+    | idx i n => exact ⟨_, _, _, by rw [run, List.foldl_cons, ← run, h1]; simp [step, writeIndices, List.append_assoc]; rfl,
+        by rw [run, List.foldl_cons, ← run, h2]; simp [step, writeIndices, List.append_assoc]; rfl,
+        by rw [run, List.foldl_cons, ← run, h3]; simp [step, writeIndices, List.append_assoc]; rfl⟩
+
+/-- decoding: after `WriteVectorN(comp, data)` — and after ANY further writes — the accessor it created is at the
+    position recorded by the caller (`len(w.accessors)` before the call) and reads back exactly the stored image of
+    `data` (binary32 patterns / bytes, in order) -/
+theorem gltf_decode_image (w : W) (hw : Inv w) (comp : Comp) (dim : Nat) (vecs : List (List Nat))
+    (hop : OpOK (.vec comp dim vecs)) (later : List Op) :
+    (run (step w (.vec comp dim vecs)) later).accessors[w.accessors.length]? = some (vecAccessor w.views.length comp dim vecs)
+    ∧ decodeAcc (run (step w (.vec comp dim vecs)) later).buf (run (step w (.vec comp dim vecs)) later).views
+        (vecAccessor w.views.length comp dim vecs) = some vecs.flatten := by
+  obtain ⟨b, vs, as, h1, h2, h3⟩ := run_extends (step w (.vec comp dim vecs)) later
+  rw [h1, h2, h3]
+  constructor
+  · simp [step, writeVec, vecAccessor]
+  · apply decodeAcc_append
+    have hnew := accOK_new_vec w.buf w.views comp dim vecs hop.1 hop.2
+    simp only [step, writeVec, hw.bytes]
+    unfold accOK at hnew
+    split at hnew
+    · rename_i v d hv hd
+      have hd2 := decodeAcc_new w.buf (vecBytes comp vecs) w.views (vecAccessor w.views.length comp dim vecs) 34962 vecs.flatten rfl
+        (by simp [vecAccessor, flatten_length_of dim vecs (fun v hv => (hop.2 v hv).1)])
+        (by simp [vecBytes, hop.1, vecAccessor])
+        (by intro x hx
+            obtain ⟨v, hv, hxv⟩ := List.mem_flatten.mp hx
+            exact ((hop.2 v hv).2 x hxv).1)
+      exact hd2
+    · simp at hnew
+
+/-- decoding of indices: after `WriteIndices(idx, attributeSize)` with every index `< attributeSize ≤ 2³²` — and after any
+    further writes — the index accessor reads back exactly `idx` (no truncation in either width) -/
+theorem gltf_decode_indices (w : W) (hw : Inv w) (idx : List Nat) (n : Nat) (hop : OpOK (.idx idx n)) (later : List Op) :
+    let a : Accessor := { view := w.views.length, comp := indexComp n, dim := 1, count := idx.length, min := [], max := [] }
+    (run (step w (.idx idx n)) later).accessors[w.accessors.length]? = some a
+    ∧ decodeAcc (run (step w (.idx idx n)) later).buf (run (step w (.idx idx n)) later).views a = some idx := by
+  intro a
+  obtain ⟨b, vs, as, h1, h2, h3⟩ := run_extends (step w (.idx idx n)) later
+  rw [h1, h2, h3]
+  constructor
+  · simp [step, writeIndices, a]
+  · apply decodeAcc_append
+    have hd := decodeAcc_new w.buf (encodeComps (indexComp n).size idx) w.views a 34963 idx rfl (by simp [a]) rfl (index_fits idx n hop)
+    have hbl : a.byteLen = idx.length * (indexComp n).size := by simp [a, Accessor.byteLen]
+    rw [hbl] at hd
+    simp only [step, writeIndices, hw.bytes]
+    exact hd
+
+/-- index width: uint16 is chosen exactly when the attribute size is at most 65535, and then (indices of a well-formed
+    mesh being smaller than the attribute size) every index is `< 65536` -/
+theorem gltf_index_width (idx : List Nat) (n : Nat) (hwf : ∀ i ∈ idx, i < n) :
+    (indexComp n = .u16 ↔ n ≤ 65535) ∧ (indexComp n = .u16 → ∀ i ∈ idx, i < 65536) := by
+  unfold indexComp
+  constructor
+  · split <;> simp <;> omega
+  · split
+    · simp
+    · intro _ i hi; have := hwf i hi; omega
+
+/-! ### component alignment: false in general, true under a guard -/
+
+/-- the full alignment clause of the property, for any admissible sequence of writes (FALSE of the code and of the
+    model: `gltf_alignment_counterexample`) -/
+def C06_alignment : Prop := ∀ ops : List Op, (∀ op ∈ ops, OpOK op) → aligned (run {} ops).doc = true
+
+/-- what `AddScene` does for two models with one triangle each: 36 bytes of positions, 6 bytes of uint16 indices — the
+    second mesh's float data start at byte 42 -/
+def alignmentWitness : List Op :=
+  [.vec .f32 3 [[0, 0, 0], [0, 0x3f800000, 0], [0x3f800000, 0, 0]], .idx [0, 1, 2] 3,
+   .vec .f32 3 [[0, 0, 0x3f800000], [0, 0x3f800000, 0x3f800000], [0x3f800000, 0, 0x3f800000]], .idx [0, 1, 2] 3]
+
+theorem alignmentWitness_offsets : (run {} alignmentWitness).views.map (·.off) = [0, 36, 42, 78] := by
+  simp [alignmentWitness, run, step, writeVec, writeIndices, indexComp, Comp.size]
+
+theorem alignmentWitness_ok : ∀ op ∈ alignmentWitness, OpOK op := by
+  intro op hop
+  simp only [alignmentWitness, List.mem_cons, List.mem_nil_iff, or_false] at hop
+  rcases hop with rfl | rfl | rfl | rfl <;>
+    simp [OpOK, VecsOK, Comp.size, posInf32, negInf32]
+
+theorem gltf_alignment_counterexample : ¬ C06_alignment := by
+  intro h
+  have := h alignmentWitness alignmentWitness_ok
+  simp [alignmentWitness, run, step, writeVec, writeIndices, indexComp, Comp.size, aligned, W.doc] at this
+
+
+def alignedAcc (views : List View) (a : Accessor) : Bool :=
+  match views[a.view]? with
+  | none => false
+  | some v => v.off % a.comp.size == 0
+      && (v.target != 34962 || (v.off % 4 == 0 && (a.dim * a.comp.size) % 4 == 0))
+
+theorem aligned_eq (d : Doc) : aligned d = d.accessors.all (alignedAcc d.views) := rfl
+
+/-- the exact guard of the partial theorem: no byte-typed vectors, and every index block has a byte length divisible
+    by 4 (an even number of uint16 indices, or uint32 indices) -/
+def AlignedOp : Op → Prop
+  | .vec comp _ _ => comp = .f32
+  | .idx idx n => (idx.length * (indexComp n).size) % 4 = 0
+
+private structure AInv (w : W) : Prop where
+  bw : w.bytesWritten % 4 = 0
+  accs : ∀ a ∈ w.accessors, alignedAcc w.views a = true
+
+private theorem alignedAcc_append (views vs : List View) (a : Accessor) (h : alignedAcc views a = true) :
+    alignedAcc (views ++ vs) a = true := by
+  unfold alignedAcc at h ⊢
+  split at h
+  · simp at h
+  · rename_i v hv
+    have hlt : a.view < views.length := by
+      rcases Nat.lt_or_ge a.view views.length with h1 | h1
+      · exact h1
+      · rw [List.getElem?_eq_none h1] at hv; simp at hv
+    rw [List.getElem?_append_left hlt, hv]
+    exact h
+
+private theorem ainv_step (w : W) (op : Op) (hw : AInv w) (hop : AlignedOp op) : AInv (step w op) := by
+  cases op with
+  | vec comp dim vecs =>
+    have hc : comp = .f32 := hop
+    subst hc
+    refine ⟨?_, ?_⟩
+    · have := hw.bw
+      simp only [step, writeVec, Comp.size]; omega
+    · intro a ha
+      simp only [step, writeVec, List.mem_append, List.mem_singleton] at ha
+      rcases ha with ha | rfl
+      · exact alignedAcc_append _ _ a (hw.accs a ha)
+      · have := hw.bw
+        simp only [step, writeVec, alignedAcc, List.getElem?_concat_length, Comp.size]
+        simp; omega
+  | idx idx n =>
+    have hlen : (idx.length * (indexComp n).size) % 4 = 0 := hop
+    refine ⟨?_, ?_⟩
+    · have := hw.bw
+      simp only [step, writeIndices]; omega
+    · intro a ha
+      simp only [step, writeIndices, List.mem_append, List.mem_singleton] at ha
+      rcases ha with ha | rfl
+      · exact alignedAcc_append _ _ a (hw.accs a ha)
+      · have := hw.bw
+        simp only [step, writeIndices, alignedAcc, List.getElem?_concat_length]
+        unfold indexComp
+        split <;> simp [Comp.size] <;> omega
+
+/-- alignment holds for every sequence of writes in which all vectors are FLOAT and every index block has a byte length
+    divisible by 4 -/
+theorem gltf_alignment_partial (ops : List Op) (h : ∀ op ∈ ops, AlignedOp op) : aligned (run {} ops).doc = true := by
+  have key : ∀ (w : W), AInv w → ∀ ops : List Op, (∀ op ∈ ops, AlignedOp op) → AInv (run w ops) := by
+    intro w hw ops
+    induction ops generalizing w with
+    | nil => intro _; exact hw
+    | cons op ops ih =>
+      intro hops
+      exact ih (step w op) (ainv_step w op hw (hops op (by simp))) (fun o ho => hops o (by simp [ho]))
+  have hi := key {} ⟨rfl, by simp⟩ ops h
+  rw [aligned_eq]
+  simp only [W.doc, List.all_eq_true]
+  exact hi.accs
+
+example : ∀ op ∈ ([.vec .f32 3 [[0, 0, 0], [0, 1, 0]], .idx [0, 1, 1, 0] 2, .idx [0] 70000] : List Op), AlignedOp op := by
+  intro op hop
+  simp only [List.mem_cons, List.mem_nil_iff, or_false] at hop
+  rcases hop with rfl | rfl | rfl <;> simp [AlignedOp, indexComp, Comp.size]
+
+/-! ### non-vacuity: concrete admissible writes -/
+
+example : ∀ op ∈ ([.vec .f32 3 [[0, 0x3f800000, 0xbf800000], [0x3f333333, 0, 0x80000000]], .vec .u8 4 [[1, 2, 3, 255]],
+    .idx [0, 1, 1] 2, .idx [65535, 3] 65536] : List Op), OpOK op := by
+  intro op hop
+  simp only [List.mem_cons, List.mem_nil_iff, or_false] at hop
+  rcases hop with rfl | rfl | rfl | rfl <;> simp [OpOK, VecsOK, Comp.size, posInf32, negInf32]
+
+example : (glbFrame [0x7b, 0x7d] [1, 2, 3]).length < 2 ^ 32 := by
+  rw [glb_frame_length]; simp [pad4]
+
 end C06
 end PolyVerif
